@@ -112,6 +112,7 @@ func init() {
 			{Name: "gigantic", Run: c13Gigantic},
 			{Name: "random", TShards: 2, Run: c13Random},
 			{Name: "bytes", Run: c13Bytes},
+			{Name: "afteruse", Run: afterUse(c13Bytes)},
 			{Name: "longcontext", QShards: 8, TShards: 12, Run: func(c *Ctx) {
 				longContextPanics(c, 0, "ACGTacgt", []byte{'N', 'U', 'u', '@', 0, 0xff, 'B', 0x80, '`'}, map[string]func([]byte){
 					"DNATo2Bit": func(s []byte) { sequtil.DNATo2Bit(nil, s) },
@@ -139,8 +140,10 @@ func init() {
 			{Name: "codons", Run: c14Codons},
 			{Name: "frames", TShards: 4, Run: c14Frames},
 			{Name: "panics", Run: c14Panics},
+			{Name: "afteruse", Run: afterUse(c14Panics)},
 			{Name: "aminoname", Run: c14AminoName},
 			{Name: "framepanics", Run: c14FramePanics},
+			{Name: "gigantic", Run: c14Gigantic},
 			{Name: "longcontext", QShards: 8, TShards: 12, Run: func(c *Ctx) {
 				longContextPanics(c, 0, "ACGTacgt", []byte{'N', 'U', '@', 0, 0xff, 0x80}, map[string]func([]byte){
 					"Translate": func(s []byte) { sequtil.Translate(nil, append(append([]byte{}, s...), "AA"[:(3-len(s)%3)%3]...)) },
@@ -971,6 +974,44 @@ func longContextPanics(c *Ctx, idx0 int64, valid string, invalid []byte, calls m
 		})
 		idx++
 	}
+	// Inputs of 2^20 bases and more (where an implementation may split the work among goroutines or blocks): one
+	// invalid byte at the very first and last positions, next to every eighth and sixteenth of the length, in the
+	// middle — each must panic like anywhere else.
+	for _, total := range []int{1 << 20, 1<<20 + 1, 3<<20 + 7} {
+		c.Case(idx, func(k *K) {
+			r := k.Rand()
+			fill := randSeq(r, []byte(valid), total)
+			s := make([]byte, total)
+			pos := map[int]bool{0: true, 1: true, 2: true, 3: true, total - 1: true, total - 2: true, total - 3: true, total / 2: true, total/2 - 1: true, total / 3: true}
+			for j := 1; j < 16; j++ {
+				for d := -1; d <= 1; d++ {
+					pos[j*total/16+d] = true
+					pos[j*(total/16)+d] = true
+				}
+			}
+			for p := range pos {
+				if p < 0 || p >= total {
+					continue
+				}
+				copy(s, fill)
+				b := invalid[p%len(invalid)]
+				s[p] = b
+				for name, call := range calls {
+					if !expectPanic(func() { call(s) }) {
+						k.Input("byte", b)
+						k.Input("index", p)
+						k.Input("length", total)
+						k.Failf("missing-panic", "%s: byte %q at index %d of an otherwise valid sequence of %d bases did not cause a panic", name, b, p, total)
+						return
+					}
+				}
+				k.Count("huge_input_panics", int64(len(calls)))
+				k.Evals(1)
+			}
+			k.Nontrivial([]byte(fmt.Sprint("huge-invalid", total, valid)))
+		})
+		idx++
+	}
 	// EVERY byte value outside the alphabet (not just a handful) at the positions where a block-wise
 	// implementation changes blocks: m*B + d for B = 3072, 4095, 4096, 8192, 12288, 65536, m = 1, 2, d = -2..2.
 	// A byte that a case fold, a mask or a table maps onto a valid base when it is processed twice (carried
@@ -1166,5 +1207,39 @@ func periodicPanics(c *Ctx, valid string, invalid []byte, calls map[string]func(
 			})
 			idx++
 		}
+	}
+}
+
+// c14Gigantic: Translate on 2^20 codons and more in ONE call, appended to
+// destinations of every kind: nil, a short prefix, a prefix LONGER than what is
+// appended, each with tight, scant and ample capacity. Above such sizes an
+// implementation may grow dst by itself "exactly once".
+func c14Gigantic(c *Ctx) {
+	sizes := []int{1<<20 + 5}
+	if c.Thorough {
+		sizes = append(sizes, 1<<22+1)
+	}
+	for i, ncod := range sizes {
+		c.Case(int64(i), func(k *K) {
+			r := k.Rand()
+			src := randSeq(r, []byte(dna8), 3*ncod)
+			want := refTranslate(src)
+			k.Input("codons", ncod)
+			for _, plen := range []int{0, 5, ncod + 100, 2*ncod + 1} {
+				prefix := refTranslate(randSeq(r, []byte(dna8), 3*plen))
+				for _, spare := range []int{0, 1, ncod - 1, ncod, ncod + 50} {
+					dst := withCap(prefix, spare)
+					got := sequtil.Translate(dst, src)
+					if len(got) != plen+ncod || !bytes.Equal(got[:plen], prefix) || !bytes.Equal(got[plen:], want) {
+						d := firstDiff(got, append(append([]byte{}, prefix...), want...))
+						k.Failf("translate-append", "Translate(dst of %d bytes with %d spare, %d codons): the result has %d bytes, want %d; it differs from dst + translation at byte %d", plen, spare, ncod, len(got), plen+ncod, d)
+						return
+					}
+					k.Count("gigantic_translations", 1)
+					k.Evals(1)
+				}
+			}
+			k.Nontrivial([]byte(fmt.Sprint("gigantic", ncod)))
+		})
 	}
 }
